@@ -22,7 +22,7 @@ import warnings
 
 import numpy as np
 
-from pv.ctx import fingerprint
+from pv.ctx import CaseTimeout, fingerprint
 
 META = {
     "id": "C33",
@@ -384,8 +384,13 @@ def run(ctx):
             # ---- (a2) raw execution
             ctx.ev("pre.executable")
             try:
-                raw = dev.execute(tuple(out_tapes), config)
-                res = fn(raw)[0]
+                # quimb's MPS gate application occasionally does not return for minutes (SVD sweeps in swap_sites_with_compress): watchdog
+                with ctx.time_limit(90 if name.startswith("default.tensor") else 600, f"{name} raw execution"):
+                    raw = dev.execute(tuple(out_tapes), config)
+                    res = fn(raw)[0]
+            except CaseTimeout as e:
+                ctx.inconclusive_case(f"watchdog: {e} exceeded its wall-clock limit")
+                continue
             except Exception as e:  # noqa: BLE001
                 ctx.violation("pre.executable", f"{name}: raw execution of the preprocessed tapes raised {type(e).__name__}: {str(e)[:250]}", case=info,
                               mech=retag(qp, C26, gen, spec, name, f"raw-execute:{name}:{type(e).__name__}", ms))
